@@ -127,6 +127,49 @@ def _fromhex(ctx, args, kwargs):
 
 from .values import SMethod as SMethod_
 
+def _ghost_get(ctx, args, kwargs):
+    return ctx.ghost[args[0]]
+
+
+def _ghost_set(ctx, args, kwargs):
+    ctx.ghost[args[0]] = args[1]
+    return True
+
+
+def _seq_uncons(ctx, args, kwargs):
+    from .values import SSeq, RSEQ
+    s = args[0]
+    if not isinstance(s, SSeq):
+        return S.seq_uncons(s)
+    ctx.prove("%s/ghost-nonempty" % ctx.proof_label, z3.Length(s.term) > 0)
+    x = ctx.fresh_ref("head")
+    rest = SSeq(z3.Const(ctx.fresh_name("tail"), RSEQ), s.elem, ("var",))
+    ctx.assume_raw(s.term == z3.Concat(z3.Unit(x), rest.term))
+    xo = s.elem.materialize(ctx, x)
+    # register the decomposition so folds over s unfold to f(x) (+) F(rest)
+    unit = SSeq(z3.Unit(x), s.elem, ("snoc", SSeq(z3.Empty(RSEQ), s.elem, ("empty",)), xo))
+    s.struct = ("concat", unit, rest)
+    for key in list(ctx.fold_done):
+        if key[1] == s.term.get_id():
+            ctx.fold_done.discard(key)
+    return (xo, rest)
+
+
+def _seq_snoc(ctx, args, kwargs):
+    from .values import SSeq
+    s, xo = args
+    if not isinstance(s, SSeq):
+        return S.seq_snoc(s, xo)
+    r = s.elem.adopt(ctx, xo)
+    return SSeq(z3.Concat(s.term, z3.Unit(r)), s.elem, ("snoc", SSeq(s.term, s.elem, s.struct), xo))
+
+
+def _seq_empty(ctx, args, kwargs):
+    from .values import SSeq, RSEQ
+    like = args[0]
+    return SSeq(z3.Empty(RSEQ), like.elem, ("empty",))
+
+
 def _use_lemma(ctx, args, kwargs):
     fn, s = args
     ctx.used_contracts.add("lemma:" + fn.__name__)
@@ -136,6 +179,11 @@ def _use_lemma(ctx, args, kwargs):
 
 ModelsMixin.FUNCTION_MODELS.update({
     "pyvc.spec.use_lemma": _use_lemma,
+    "pyvc.spec.ghost_get": _ghost_get,
+    "pyvc.spec.ghost_set": _ghost_set,
+    "pyvc.spec.seq_uncons": _seq_uncons,
+    "pyvc.spec.seq_snoc": _seq_snoc,
+    "pyvc.spec.seq_empty": _seq_empty,
     "pyvc.spec.is_digits": _is_digits,
     "pyvc.spec.instantiate_post": _instantiate_post,
     "pyvc.spec.assume_pre": _assume_pre,
